@@ -40,11 +40,24 @@ MAX_REPORTS = 10
 ERRCODE = [(OSError, 1), (ValueError, 2), (IndexError, 3), (KeyError, 4)]
 
 
+class Err(int):
+    """exception class code (what K compares) that remembers the class name (what S prints)"""
+    name = "Exception"
+
+
 def errcode(e):
+    code = 9
     for cls, c in ERRCODE:
         if isinstance(e, cls):
-            return c
-    return 9
+            code = c
+            break
+    x = Err(code)
+    x.name = type(e).__name__
+    return x
+
+
+def ename(c):
+    return getattr(c, "name", "error class %d" % int(c))
 
 
 def top_atoms(sp, merge_resid=False):
@@ -100,6 +113,33 @@ def species_top(sp, merge_resid=False):
     return {"name": sp["name"], "atoms": top_atoms(sp, merge_resid)}
 
 
+def near_miss_top(sp):
+    """the topology of the species with ONE atom name changed (the last atom): same (resname, size) signature, so the
+    residue pattern is found in the file, but no run matches atom by atom -> must be refused and change nothing"""
+    atoms = [list(a) for a in top_atoms(sp)]
+    atoms[-1][0] = (atoms[-1][0] + "x")[:5]
+    return {"name": "N" + sp["name"], "atoms": [tuple(a) for a in atoms]}
+
+
+def near_miss_orders(rs, present, nsp, n=3):
+    """loading orders in which near-miss topologies (index nsp + s for species s) are tried before (and between) the
+    genuine ones; `present` = species that occur in the file"""
+    out = []
+    pool = sorted(present) if present else list(range(nsp))
+    for j in range(n):
+        s0 = pool[int(rs.randint(0, len(pool)))]
+        if j == 0:
+            o = [nsp + s0, s0]                                   # refused, then the genuine one must get everything
+        elif j == 1:
+            o = [int(x) for x in rs.permutation(nsp)]
+            o.insert(int(rs.randint(0, o.index(s0) + 1)), nsp + s0)   # somewhere before the genuine topology
+        else:
+            o = [nsp + int(x) for x in rs.permutation(nsp)[:int(rs.randint(1, nsp + 1))]]
+            o += [int(x) for x in rs.permutation(nsp)[:int(rs.randint(0, nsp + 1))]]
+        out.append(o)
+    return out
+
+
 # ------------------------------------------------------------------ implementation driver
 class Interner:
     def __init__(self):
@@ -138,31 +178,38 @@ def slices_for(n, rs, full):
 
 def observe_session(built, mtops, order, slices, items=True):
     # items=False, slices=[] : only the loads, list(System), len and composition are observed
-    """one System, topologies added in `order` (exceptions caught, the session goes on).
-    Returns (loads, obs dict, molecules list or None)."""
+    """one System, topologies added in `order` (exceptions caught, the session goes on).  EVERY observation of the
+    implementation is made under `catch`: an exception becomes part of the observation (its class), never a crash of
+    the harness.  Returns (loads, obs dict, molecules list or None, system or None)."""
     from gaddlemaps.components import System
-    syst = System(built["gro"])
+    okc, syst = catch(lambda: System(built["gro"]))
+    if not okc:
+        err = syst
+        obs = {"ctor_err": err, "iter": err, "iter_ok": False, "len_ok": False, "len": err, "comp_ok": False,
+               "comp": err, "items": [], "slices": [((a, b, c), False, err) for a, b, c in slices]}
+        return [err for _ in order], obs, None, None
     loads = []
     for k in order:
         ok, r = catch(lambda: syst.add_molecule_top(mtops[k]))
         loads.append(0 if ok else r)
     obs = {}
     ok, mols = catch(lambda: list(syst))
-    obs["iter"] = [mol_descr(m) for m in mols] if ok else mols
-    obs["iter_ok"] = ok
-    obs["len"] = len(syst)
-    obs["comp"] = sorted(syst.composition.items())
-    n = obs["len"]
+    okd, descr = catch(lambda: [mol_descr(m) for m in mols]) if ok else (False, mols)
+    obs["iter"] = descr
+    obs["iter_ok"] = okd
+    obs["len_ok"], obs["len"] = catch(lambda: len(syst))
+    obs["comp_ok"], obs["comp"] = catch(lambda: sorted(syst.composition.items()))
+    n = obs["len"] if obs["len_ok"] else (len(mols) if ok else 0)
     obs["items"] = []
     if items:
         for i in range(-n - 2, n + 2):
-            ok2, m = catch(lambda: syst[i])
-            obs["items"].append((i, ok2, mol_descr(m) if ok2 else m))
+            ok2, m = catch(lambda: mol_descr(syst[i]))
+            obs["items"].append((i, ok2, m))
     obs["slices"] = []
     for a, b, c in slices:
-        ok2, ms = catch(lambda: syst[a:b:c])
-        obs["slices"].append(((a, b, c), ok2, [mol_descr(m) for m in ms] if ok2 else ms))
-    return loads, obs, (mols if ok else None), syst
+        ok2, ms = catch(lambda: [mol_descr(m) for m in syst[a:b:c]])
+        obs["slices"].append(((a, b, c), ok2, ms))
+    return loads, obs, (mols if okd else None), syst
 
 
 # ------------------------------------------------------------------ Coq terms
@@ -203,10 +250,14 @@ def coq_obs(obs, I):
                            for i, ok, d in obs["items"]) + "]"
     sl = "[" + ";".join("((%s,%s,%s),%s)" % (coq_oz(a), coq_oz(b), coq_oz(c), rlist(ok, v))
                         for (a, b, c), ok, v in obs["slices"]) + "]"
-    comp = "[" + ";".join("(%d,%d)" % (I(("m", k)), v) for k, v in obs["comp"]) + "]"
+    if obs["comp_ok"]:
+        comp = "(OOk [" + ";".join("(%d,%d)" % (I(("m", k)), v) for k, v in obs["comp"]) + "])"
+    else:
+        comp = "(OErr %d)" % obs["comp"]
+    ln = "(OOk %d)" % obs["len"] if obs["len_ok"] else "(OErr %d)" % obs["len"]
     tabl = "[" + ";".join("(%d,%d,%d,%s)" % (I(("m", d[0])), d[1], d[2], coq_Ns(d[3]))
                           for d, _ in sorted(tab.items(), key=lambda kv: kv[1])) + "]"
-    return "(mkObs %s %s %d %s %s %s)" % (tabl, it, obs["len"], comp, items, sl)
+    return "(mkObs %s %s %s %s %s %s)" % (tabl, it, ln, comp, items, sl)
 
 
 def coq_domain_case(spec, built, I):
@@ -241,7 +292,53 @@ def read_gro_raw(path):
     return out
 
 
-def oracle_session(spec, built, order, syst, mols, loads, views=True):
+def views_clauses(obs, views):
+    """len, composition, System[i] against the observed iteration; an exception where the property promises a value is a
+    failed clause that names the exception class"""
+    bad = []
+    descr = obs["iter"]
+    n = len(descr)
+    if not obs["len_ok"]:
+        bad.append("len(System) raised %s" % ename(obs["len"]))
+    elif obs["len"] != n:
+        bad.append("len = %d, iteration gives %d" % (obs["len"], n))
+    if not obs["comp_ok"]:
+        bad.append("System.composition raised %s" % ename(obs["comp"]))
+    elif dict(obs["comp"]) != dict(Counter(d[0] for d in descr)):
+        bad.append("composition %s differs from the iteration" % dict(obs["comp"]))
+    if not views:
+        return bad
+    items = dict((i, (ok, v)) for i, ok, v in obs["items"])
+    for i in range(-n, n):
+        if i not in items:
+            continue
+        ok, v = items[i]
+        if not ok:
+            bad.append("System[%d] raised %s on a system of %d molecules" % (i, ename(v), n))
+        elif v != descr[i]:
+            bad.append("System[%d] differs from list(System)[%d]" % (i, i))
+    for i in (n, n + 1, -n - 1, -n - 2):
+        if i in items and items[i][0]:
+            bad.append("System[%d] out of range returned a molecule" % i)
+    return bad
+
+
+def check_molecule(sp, mol, a0, a1, raw):
+    """one molecule against the instance of species sp at atoms a0..a1 of the file; returns a failed clause or None"""
+    ids = list(mol.atoms_ids)
+    if mol.name != sp["name"]:
+        return "molecule at atoms %d.. is %s, expected %s" % (a0, mol.name, sp["name"])
+    if ids != [raw[k][3] for k in range(a0, a1)]:
+        return "%s: atoms %s, expected the contiguous run %d..%d" % (sp["name"], ids, a0 + 1, a1)
+    tnames = [an for rn, names in sp["residues"] for an in names]
+    if [at.name for at in mol] != tnames or tnames != [raw[k][2] for k in range(a0, a1)]:
+        return "%s: atom names differ from the topology" % sp["name"]
+    if not np.array_equal(np.asarray(mol.atoms_positions), np.array([raw[k][4] for k in range(a0, a1)])):
+        return "%s: coordinates differ from the file" % sp["name"]
+    return None
+
+
+def oracle_session(spec, built, order, obs, mols, loads, views=True):
     """the property on one domain system and one loading order; returns the list of failed clauses"""
     bad = []
     if "raw" not in built:
@@ -260,53 +357,31 @@ def oracle_session(spec, built, order, syst, mols, loads, views=True):
         sp = spec["top_species"][k]
         if sp in present and sp not in loaded:
             if code != 0:
-                bad.append("topology %s of a species present in the file was refused" % spec["species"][sp]["name"])
+                bad.append("topology %s of a species present in the file was refused (%s)" %
+                           (spec["species"][sp]["name"], ename(code)))
             loaded.append(sp)
         else:
             if code == 0:
                 bad.append("topology %s with no matching run was accepted" % spec["tops"][k]["name"])
+    if "ctor_err" in obs:
+        return ["System(gro) raised %s on a well-formed file" % ename(obs["ctor_err"])]
     if bad:
         return bad
     if mols is None:
-        return ["iteration raised an error"]
+        return ["list(System) raised %s on an in-domain system" % ename(obs["iter"])]
     expected = [(s, r0, nr) for s, r0, nr in built["truth"] if s is not None and s in loaded]
     if len(mols) != len(expected):
         return ["%d molecules, %d instances of loaded species in the file" % (len(mols), len(expected))]
     for mol, (s, r0, nr) in zip(mols, expected):
-        sp = spec["species"][s]
-        a0, a1 = res_start[r0], res_start[r0 + nr]
-        ids = list(mol.atoms_ids)
-        if mol.name != sp["name"]:
-            bad.append("molecule at atoms %d.. is %s, expected %s" % (a0, mol.name, sp["name"]))
-            continue
-        if ids != [raw[k][3] for k in range(a0, a1)]:
-            bad.append("%s: atoms %s, expected the contiguous run %d..%d" % (sp["name"], ids, a0 + 1, a1))
-            continue
-        tnames = [an for rn, names in sp["residues"] for an in names]
-        if [at.name for at in mol] != tnames or [at.name for at in mol] != [raw[k][2] for k in range(a0, a1)]:
-            bad.append("%s: atom names differ from the topology" % sp["name"])
-        if not np.array_equal(np.asarray(mol.atoms_positions), np.array([raw[k][4] for k in range(a0, a1)])):
-            bad.append("%s: coordinates differ from the file" % sp["name"])
+        ok, clause = catch(lambda: check_molecule(spec["species"][s], mol, res_start[r0], res_start[r0 + nr], raw))
+        if not ok:
+            bad.append("reading molecule %s raised %s" % (spec["species"][s]["name"], ename(clause)))
+        elif clause:
+            bad.append(clause)
     if bad:
         return bad
     # views agree with each other
-    descr = [mol_descr(m) for m in mols]
-    n = len(descr)
-    if len(syst) != n:
-        bad.append("len = %d, iteration gives %d" % (len(syst), n))
-    if dict(syst.composition) != dict(Counter(d[0] for d in descr)):
-        bad.append("composition %s differs from the iteration" % dict(syst.composition))
-    if not views:
-        return bad
-    for i in range(-n, n):
-        ok, m = catch(lambda: syst[i])
-        if not ok or mol_descr(m) != descr[i]:
-            bad.append("System[%d] differs from list(System)[%d]" % (i, i))
-    for i in (n, n + 1, -n - 1, -n - 2):
-        ok, m = catch(lambda: syst[i])
-        if ok:
-            bad.append("System[%d] out of range returned a molecule" % i)
-    return bad
+    return bad + views_clauses(obs, views)
 
 
 def has_same_key(sp):
@@ -321,7 +396,7 @@ def has_same_key(sp):
     return False
 
 
-def oracle_samekey(spec, built, order, syst, mols, loads):
+def oracle_samekey(spec, built, order, obs, mols, loads):
     """The property on a file that contains species with same-key residues (known finding).  Returns
     (keyed, other): clauses that are the refusal/misrecognition of an AFFECTED species (reported under the key
     same_key_residues), and every other failed clause (reported as an ordinary violation)."""
@@ -346,44 +421,35 @@ def oracle_samekey(spec, built, order, syst, mols, loads):
         elif code == 0:
             other.append("topology %s with no matching run was accepted" % spec["tops"][k]["name"])
     hit = any(sp in affected for sp in accepted)
+    if "ctor_err" in obs:
+        other.append("System(gro) raised %s on a well-formed file" % ename(obs["ctor_err"]))
+        return keyed, other
     if mols is None:
-        (keyed if hit else other).append("iteration raised an error")
+        (keyed if hit else other).append("list(System) raised %s" % ename(obs["iter"]))
         return keyed, other
     names_ok = set(spec["species"][sp]["name"] for sp in accepted)
     for m in mols:
         if m.name not in names_ok:
             other.append("a molecule %s of a species that was not accepted" % m.name)
-    firsts = [m.atoms_ids[0] for m in mols]
+    firsts = [d[1] for d in obs["iter"]]
     if firsts != sorted(firsts) or len(set(firsts)) != len(firsts):
         (keyed if hit else other).append("molecules not in file order")
     for sp in accepted:
         spd = spec["species"][sp]
         dest = keyed if sp in affected else other
-        obs = [m for m in mols if m.name == spd["name"]]
+        got = [m for m in mols if m.name == spd["name"]]
         exp = [(r0, nr) for s, r0, nr in built["truth"] if s == sp]
-        if len(obs) != len(exp):
-            dest.append("%s: %d molecules, %d instances in the file" % (spd["name"], len(obs), len(exp)))
+        if len(got) != len(exp):
+            dest.append("%s: %d molecules, %d instances in the file" % (spd["name"], len(got), len(exp)))
             continue
-        tnames = [an for rn, nm in spd["residues"] for an in nm]
-        for mol, (r0, nr) in zip(obs, exp):
-            a0, a1 = res_start[r0], res_start[r0 + nr]
-            if list(mol.atoms_ids) != [raw[k][3] for k in range(a0, a1)]:
-                dest.append("%s: atoms %s, expected the contiguous run %d..%d" % (spd["name"], list(mol.atoms_ids), a0 + 1, a1))
-            elif [at.name for at in mol] != tnames or tnames != [raw[k][2] for k in range(a0, a1)]:
-                dest.append("%s: atom names differ from the topology" % spd["name"])
-            elif not np.array_equal(np.asarray(mol.atoms_positions), np.array([raw[k][4] for k in range(a0, a1)])):
-                dest.append("%s: coordinates differ from the file" % spd["name"])
+        for mol, (r0, nr) in zip(got, exp):
+            ok, clause = catch(lambda: check_molecule(spd, mol, res_start[r0], res_start[r0 + nr], raw))
+            if not ok:
+                other.append("reading molecule %s raised %s" % (spd["name"], ename(clause)))
+            elif clause:
+                dest.append(clause)
     # the views agree with each other whatever was recognised
-    descr = [mol_descr(m) for m in mols]
-    n = len(descr)
-    if len(syst) != n:
-        other.append("len = %d, iteration gives %d" % (len(syst), n))
-    if dict(syst.composition) != dict(Counter(d[0] for d in descr)):
-        other.append("composition %s differs from the iteration" % dict(syst.composition))
-    for i in range(-n, n):
-        ok, m = catch(lambda: syst[i])
-        if not ok or mol_descr(m) != descr[i]:
-            other.append("System[%d] differs from list(System)[%d]" % (i, i))
+    other += views_clauses(obs, True)
     return keyed, other
 
 
@@ -397,7 +463,9 @@ def oracle_slices(obs):
             if ok:
                 bad.append("System[::0] returned a list")
             continue
-        if not ok or v != obs["iter"][a:b:c]:
+        if not ok:
+            bad.append("System[%s:%s:%s] raised %s" % (a, b, c, ename(v)))
+        elif v != obs["iter"][a:b:c]:
             bad.append("System[%s:%s:%s] differs from list(System)[%s:%s:%s]" % (a, b, c, a, b, c))
     return bad
 
@@ -435,16 +503,16 @@ def run_system(job):
             for c in loads:
                 if c:
                     out["hist"]["refused_class_%d" % c] += 1
-            out["keys"].append((tuple(order), tuple(loads), len(obs["iter"]) if obs["iter_ok"] else -1))
+            out["keys"].append((tuple(order), tuple(int(c) for c in loads), len(obs["iter"]) if obs["iter_ok"] else -1))
             if job.get("samekey"):
-                keyed, other = oracle_samekey(spec, built, order, syst, mols, loads)
+                keyed, other = oracle_samekey(spec, built, order, obs, mols, loads)
                 other += oracle_slices(obs)
                 if keyed:
                     out["fails_keyed"].append((order, keyed))
                 if other:
                     out["fails"].append((order, other))
             elif job["domain"]:
-                bad = oracle_session(spec, built, order, syst, mols, loads, views) + oracle_slices(obs)
+                bad = oracle_session(spec, built, order, obs, mols, loads, views) + oracle_slices(obs)
                 if bad:
                     out["fails"].append((order, bad))
             if job.get("in_k", True):
@@ -486,7 +554,8 @@ def run_system(job):
 def fixed_spec(seq):
     """seq: tuple over 0..4 (0..3 = FIXED species, 4 = solvent residue)"""
     return {"species": FIXED, "segments": [s if s < 4 else SOLVENT for s in seq],
-            "tops": [species_top(sp) for sp in FIXED], "top_species": [0, 1, 2, 3]}
+            "tops": [species_top(sp) for sp in FIXED] + [near_miss_top(sp) for sp in FIXED],
+            "top_species": [0, 1, 2, 3, None, None, None, None]}
 
 
 def random_domain_spec(rs, nmol):
@@ -516,8 +585,8 @@ def random_domain_spec(rs, nmol):
             segs.append(others[int(rs.randint(0, len(others)))])
         else:
             segs.append(int(u))
-    tops = [species_top(sp) for sp in species]
-    top_species = list(range(nsp))
+    tops = [species_top(sp) for sp in species] + [near_miss_top(sp) for sp in species]
+    top_species = list(range(nsp)) + [None] * nsp
     # a topology made of residues of the file in an arrangement that occurs nowhere: no matching run
     flat = []
     for seg in segs:
@@ -603,6 +672,9 @@ CORPUS = [
     {"seq": (0, 4, 1, 2, 4, 3), "orders": [list(p) for p in itertools.permutations(range(4))]},
     # a species absent from the file is refused and the rest is still recognised
     {"seq": (1, 1, 4), "orders": [[0, 1], [1, 0], [2, 3, 1]]},
+    # near-miss topologies (index 4 + s: one atom name of species s changed) are refused and change nothing:
+    # the genuine topology loaded afterwards still gets every molecule
+    {"seq": (0, 1, 0, 2), "orders": [[4, 0], [5, 1, 0], [6, 2, 1], [4, 5, 6, 7, 0, 1, 2, 3], [4], [7, 6]]},
 ]
 
 
@@ -671,6 +743,8 @@ def make_jobs(ctx):
                 ords = [orders[k] for k in keep + full]
                 vo = [int(rs.randint(6, 18)), int(rs.randint(0, 6))]
                 in_k = bool(rs.randint(0, 2))     # S on every sequence, K (text for coqc) on a random half
+            ords = ords + near_miss_orders(rs, set(x for x in seq if x < 4), 4, 3)
+            vo = vo + [len(ords) - 3]
             jobs.append({"spec": fixed_spec(seq), "orders": ords, "domain": True, "kind": "fixed", "seq": list(seq),
                          "seed": int(rs.randint(0, 2 ** 31)), "full_slices": False, "view_orders": vo, "in_k": in_k})
     # exhaustive slices on a few systems
